@@ -94,4 +94,18 @@ TEXT = {
                  "contact models. Found the missing renumbering after removals and the unchecked face-type count (both fixed). Exploration.",
         "note": "Trusted: the harness invariants. Mid-iteration uses of references are only observable through the sanitizers.",
     },
+    "C04": {
+        "technique": "rapidcheck property-based testing; reference recurrence (bit-exact) and pressure law against the independent volume, stateful solver histories with forced volume jumps",
+        "level": "The target-volume recurrence is checked bit-exactly, pressure against -K ln(V/Vt) capped at Pmax with V from the independent "
+                 "geometry, eligibility per class, 3-sigma clamping over seeded draws; removal / non-resurrection over solver histories. Exploration.",
+        "note": "Trusted: geom.hpp; hook H2 only re-seeds the generators (4 added lines).",
+    },
+    "C09": {
+        "technique": "rapidcheck property-based testing with constructed degenerate axes; success/failure branch oracle using the independent topology oracle, snapshot comparison for the failure branch",
+        "level": "Every division outcome is judged: on success two outward closed manifolds of the mother's type on their own sides, volumes "
+                 "adding up within the remeshing tolerance, half target volume, fresh unique ids and renumbered positions; on failure the "
+                 "mother and all other cells bitwise unchanged and no exception. Axis classes that hit nodes or coordinate axes are produced by "
+                 "construction. Found the NaN interface for axis -z and the out-of-bounds read on coincident interface points (both fixed). Exploration.",
+        "note": "Trusted: the harness oracle; forced axes use the repository's own virtual get_cell_division_axis().",
+    },
 }
